@@ -1,24 +1,25 @@
 #!/usr/bin/env python3
 """Runs the current checks against every seeded change of /verif/seeded (scratch worktree of /repo HEAD per seed, removed
 afterwards; the test suite and the demos were confirmed when the seed was recorded) and writes seeded/MATRIX.json.
-usage: python3 tools/seed_matrix.py [seed ids...]"""
+usage: python3 tools/seed_matrix.py [-jN] [seed ids...]   (N seeds at a time, default 3)"""
 import json, os, re, subprocess, sys, time
 V = os.path.dirname(os.path.dirname(os.path.abspath(__file__)))
 EXTRA = {'C04_1': ['C04', 'C11'], 'C11_1': ['C11', 'C04'], 'C18_2': ['C16', 'C18'], 'C03_2': ['C03', 'C07'], 'C16_1': ['C16', 'C18'],
          'C13_4': ['C13', 'C07'], 'C03_4': ['C03', 'C07'], 'C15_3': ['C15', 'C04']}
-seeds = sys.argv[1:] or sorted(d for d in os.listdir(os.path.join(V, 'seeded')) if os.path.isdir(os.path.join(V, 'seeded', d)))
+args_ = [a for a in sys.argv[1:] if not a.startswith('-j')]
+JOBS = int(([a[2:] for a in sys.argv[1:] if a.startswith('-j')] or ['3'])[0])
+seeds = args_ or sorted(d for d in os.listdir(os.path.join(V, 'seeded')) if os.path.isdir(os.path.join(V, 'seeded', d)))
 mpath = os.path.join(V, 'seeded', 'MATRIX.json')
 matrix = json.load(open(mpath)) if os.path.exists(mpath) else {}
-for sid in seeds:
+def run_seed(sid):
     wt = '/tmp/sm_%s_%d' % (sid, os.getpid())
     subprocess.run(['git', '-C', '/repo', 'worktree', 'add', '-q', wt, 'HEAD'], check=True)
     try:
         subprocess.run('cp /repo/src/TotalDepth/LIS/core/*.so %s/src/TotalDepth/LIS/core/ 2>/dev/null' % wt, shell=True)
         r = subprocess.run(['git', '-C', wt, 'apply', os.path.join(V, 'seeded', sid, 'patch.diff')], capture_output=True, text=True)
         if r.returncode != 0:
-            matrix[sid] = {'applies': False, 'error': r.stderr[-300:]}
-            print(sid, 'PATCH DOES NOT APPLY')
-            continue
+            print(sid, 'PATCH DOES NOT APPLY', flush=True)
+            return sid, {'applies': False, 'error': r.stderr[-300:]}
         res = {}
         for prop in EXTRA.get(sid, [sid.split('_')[0]]):
             t0 = time.time()
@@ -36,8 +37,14 @@ for sid in seeds:
                     else:
                         how.add('stand-in ' + rp[:-3])
             res[prop] = {'exit': p.returncode, 'caught_by': sorted(how), 'lines': [l[:240] for l in lines][:6], 'seconds': round(time.time() - t0)}
-            print(sid, prop, 'exit', p.returncode, sorted(how))
-        matrix[sid] = {'applies': True, 'checks': res}
+            print(sid, prop, 'exit', p.returncode, sorted(how), flush=True)
+        return sid, {'applies': True, 'checks': res}
     finally:
         subprocess.run(['git', '-C', '/repo', 'worktree', 'remove', '--force', wt])
-    json.dump(matrix, open(mpath, 'w'), indent=1, sort_keys=True)
+
+
+from concurrent.futures import ThreadPoolExecutor
+with ThreadPoolExecutor(JOBS) as ex:
+    for sid, r in ex.map(run_seed, seeds):
+        matrix[sid] = r
+        json.dump(matrix, open(mpath, 'w'), indent=1, sort_keys=True)
